@@ -67,7 +67,8 @@ type sModel struct {
 	self, absent float64 // constructor parameters of the weighted graphs
 	directed     bool
 	nodes        map[int64]int
-	edges        map[[2]int64]float64 // directed: (from,to); undirected: (min,max)
+	edges        map[[2]int64]float64  // directed: (from,to); undirected: (min,max)
+	ends         map[[2]int64][3]int64 // per edge: from ID, tag of the from node value, tag of the to node value of the stored edge
 }
 
 func (m *sModel) ekey(u, v int64) [2]int64 {
@@ -102,6 +103,13 @@ func (m *sModel) key() string {
 		b = strconv.AppendInt(b, k[1], 10)
 		b = append(b, ':')
 		b = append(b, fmtW(m.edges[k])...)
+		e := m.ends[k]
+		b = append(b, '@')
+		b = strconv.AppendInt(b, e[0], 10)
+		b = append(b, '/')
+		b = strconv.AppendInt(b, e[1], 10)
+		b = append(b, '/')
+		b = strconv.AppendInt(b, e[2], 10)
 		b = append(b, ',')
 	}
 	return string(b)
@@ -112,6 +120,7 @@ func (m *sModel) removeNode(id int64) {
 	for k := range m.edges {
 		if k[0] == id || k[1] == id {
 			delete(m.edges, k)
+			delete(m.ends, k)
 		}
 	}
 }
@@ -127,8 +136,12 @@ func (m *sModel) view(name string, weighted bool, endTag func(w float64) int) *a
 		if !ok {
 			return absEdge{}, false
 		}
-		t := endTag(w)
-		return absEdge{w: w, hasW: true, ftag: t, ttag: t}, true
+		e := m.ends[m.ekey(u, v)]
+		ft, tt := int(e[1]), int(e[2])
+		if e[0] != u { // the stored edge runs v→u: the container hands out its reversal
+			ft, tt = tt, ft
+		}
+		return absEdge{w: w, hasW: true, ftag: ft, ttag: tt}, true
 	}
 	if weighted {
 		a.weight = func(u, v int64) (float64, bool) {
@@ -152,6 +165,7 @@ type simpleCfg struct {
 	q       []int64   // IDs queried: U+ and absent IDs
 	weights []float64 // SetEdge weights (tags for the unweighted graphs)
 	tagByW  bool      // nodes created by SetEdge carry tag=int(w) (else tag 1)
+	mixed   bool      // add the SetEdge operations with mixed end point node values (endFlavours)
 	// constructor parameters of the weighted graphs; params=false: defSelf, defAbsent
 	params       bool
 	self, absent float64
@@ -201,6 +215,16 @@ func simpleOps(cfg *simpleCfg) []op {
 			}
 		}
 	}
+	if cfg.mixed {
+		for _, fl := range endFlavours {
+			for _, i := range cfg.ids {
+				for _, j := range cfg.ids {
+					ops = append(ops, op{kind: opSetEdge, i: i, j: j, w: cfg.weights[0], mixed: true, ft: fl[0], tt: fl[1],
+						name: fmt.Sprintf("SetEdge(%d,%d,w=%s,ends=%s)", i, j, fmtW(cfg.weights[0]), flavourName(fl[0], fl[1]))})
+				}
+			}
+		}
+	}
 	for _, i := range cfg.ids {
 		for _, j := range cfg.ids {
 			ops = append(ops, op{kind: opRemoveEdge, i: i, j: j, name: fmt.Sprintf("RemoveEdge(%d,%d)", i, j)})
@@ -215,7 +239,7 @@ func simpleOps(cfg *simpleCfg) []op {
 func (y *simpleSys) newInst() *sInst {
 	self, absent := y.cfg.selfAbsent()
 	g, set := newSimpleG(y.cfg.kind, self, absent)
-	return &sInst{g: g, set: set, m: &sModel{self: self, absent: absent, directed: y.cfg.kind.directed(), nodes: map[int64]int{}, edges: map[[2]int64]float64{}}}
+	return &sInst{g: g, set: set, m: &sModel{self: self, absent: absent, directed: y.cfg.kind.directed(), nodes: map[int64]int{}, edges: map[[2]int64]float64{}, ends: map[[2]int64][3]int64{}}}
 }
 
 func (y *simpleSys) keyOf(s *sInst) string {
@@ -289,18 +313,24 @@ func (y *simpleSys) apply(s *sInst, k int) (string, bool) {
 			s.g.RemoveNode(o.i)
 			m.removeNode(o.i)
 		case opSetEdge:
-			tag := y.endTag(o.w)
-			e := tEdge{F: tNode{Id: o.i, Tag: tag}, T: tNode{Id: o.j, Tag: tag}, W: o.w}
+			ft, tt := y.endTag(o.w), y.endTag(o.w)
+			if o.mixed {
+				ft, tt = o.ft, o.tt
+			}
+			e := tEdge{F: mkNode(o.i, ft, ownSimple), T: mkNode(o.j, tt, ownSimple), W: o.w}
 			if o.i == o.j {
+				// documented: panics if the IDs of e.From and e.To are equal — whatever values carry them
 				s.dump = expectPanic(c, s.g, o.name+" (self loop)", func() { s.set(e) })
 				break
 			}
 			s.set(e)
-			m.nodes[o.i], m.nodes[o.j] = tag, tag
+			m.nodes[o.i], m.nodes[o.j] = ft, tt
 			m.edges[m.ekey(o.i, o.j)] = o.w
+			m.ends[m.ekey(o.i, o.j)] = [3]int64{o.i, int64(ft), int64(tt)}
 		case opRemoveEdge:
 			s.g.RemoveEdge(o.i, o.j)
 			delete(m.edges, m.ekey(o.i, o.j))
+			delete(m.ends, m.ekey(o.i, o.j))
 		case opNodeWithID:
 			n, isNew := s.g.NodeWithID(o.i)
 			tag, live := m.nodes[o.i]
